@@ -91,10 +91,21 @@ C08_Recorded(C, R) ==
             /\ R.y_events_len[i] = Len(R.t_events[i])
             /\ NonDec(Ranks(R.t_events[i]))
             /\ \A j \in 1..Len(R.t_events[i]) :
-                  /\ R.ev[i][j].g_small /\ R.ev[i][j].ye_dim /\ R.ev[i][j].ye_sol
+                  /\ R.ev[i][j].g_small /\ R.ev[i][j].g_brk /\ R.ev[i][j].ye_dim /\ R.ev[i][j].ye_sol
                   /\ C.x0.r <= R.t_events[i][j].r /\ R.t_events[i][j].r <= C.m.xend_hi
 
 \* all accepted step ends are reported only without t_eval / first_step
+OppD(l, r, dir) == CASE dir = "All" -> (l = -1 /\ r = 1) \/ (l = 1 /\ r = -1)
+                     [] dir = "Pos" -> l = -1 /\ r = 1
+                     [] dir = "Neg" -> l = 1 /\ r = -1
+\* C08: "the sign change it marks has the configured direction": an event strictly inside a reported interval whose
+\* end signs are both non-zero marks a change with the configured direction
+C08_Direction(C, R) ==
+    (IsSol(R) /\ ~C.hasT /\ ~C.hasFs /\ Len(C.events) > 0) =>
+      \A i \in 1..Len(C.events) : \A k \in 1..Len(R.t) - 1 :
+         LET l == R.gsign[i][k]  r == R.gsign[i][k + 1]
+             open == Cardinality({ j \in 1..Len(R.t_events[i]) : R.t[k].r < R.t_events[i][j].r /\ R.t_events[i][j].r < R.t[k + 1].r })
+         IN (l # 0 /\ r # 0 /\ open >= 1) => OppD(l, r, C.events[i].dir)
 Opp(l, r, dir) == CASE dir = "All" -> (l = -1 /\ r = 1) \/ (l = 1 /\ r = -1)
                     [] dir = "Pos" -> l = -1 /\ r = 1
                     [] dir = "Neg" -> l = 1 /\ r = -1
